@@ -55,7 +55,11 @@ func main() {
 		"of the lattice pool; non-trivial there: not assignable, expected not Any, actual neither Any nor Unit. Alias graphs (alias.go): " +
 		"ladders of 1-48 alias levels with fan-in 1-4 through 7 constructors, chains, diamonds, wide fan-in, recursive and mutually recursive " +
 		"aliases, seeded random graphs, built by constructor and by type declarations, against 9 actual types, a second copy of the graph and " +
-		"3 values, in a child process under a deadline; non-trivial there: a not assignable (graph, actual type) pair"
+		"3 values, in a child process under a deadline; non-trivial there: a not assignable (graph, actual type) pair. Pairs of two different " +
+		"alias graphs (aliasPairs): every small graph against copies that differ in one leaf, two declarations of a self-recursive alias " +
+		"(10 kinds) that differ in a leaf / a key / the constructor, mutually recursive pairs, ladders of different constructors, at the " +
+		"top and below 7 constructors, both directions, as alias and resolved, in the child process with an 8 MB stack limit; non-trivial: " +
+		"a not assignable pair of graphs"
 	pcore.Do(func(c px.Context) {
 		if *aworkerFlag {
 			aworkerMain() // alias.go: the child process that makes the calls on alias graphs
@@ -720,10 +724,10 @@ func replayInputs(path string) []interface{} {
 }
 
 func replay(cfg *lib.Config, res *lib.Result) {
-	dcf, tcf, icf, ccf, wcf := newDescCases(), newATypeCases(), newAInstCases(), newCallableCases(), newWalkCases()
+	dcf, tcf, icf, ccf, wcf, acf := newDescCases(), newATypeCases(), newAInstCases(), newCallableCases(), newWalkCases(), newActualCases()
 	pats, strs := map[string]bool{}, map[string]bool{}
 	for _, in := range replayInputs(cfg.Replay) {
-		if replayAlias(res, in, wcf) {
+		if replayAlias(res, in, wcf, acf) {
 			continue
 		}
 		if replayExt(res, in, ccf, pats, strs) {
@@ -803,5 +807,8 @@ func replay(cfg *lib.Config, res *lib.Result) {
 	}
 	if len(wcf.Cases) > 0 {
 		res.CorrFiles = append(res.CorrFiles, wcf.WriteTo(cfg.Out, "cases_walk_replay"))
+	}
+	if len(acf.Cases) > 0 {
+		res.CorrFiles = append(res.CorrFiles, acf.WriteTo(cfg.Out, "cases_actual_replay"))
 	}
 }
